@@ -44,8 +44,8 @@ RULE = ("stencil cases: accuracy 2-18 (even), dtype complex64/complex128, prefac
 CLAUSES = ["stencil-eigenvalue", "stencil-eigenvalue-exhaustive", "stencil-linear-reference", "coefficient-order-conditions",
            "coefficient-exact", "bad-accuracy-refused", "laplace-operator-eigenvalue", "vacuum-intensity",
            "vacuum-phase-model", "lazy-equals-eager:values"]
-QUICK = dict(n=34, time=45)
-THOROUGH = dict(n=1400, time=400, shards=16)
+QUICK = dict(n=30, time=30)
+THOROUGH = dict(n=640, time=380, shards=16)
 
 ACCURACIES = [2, 4, 6, 8, 10, 12, 14, 16, 18]
 PREFACTORS = [1.0, 285.7142857142857, -0.0123]
@@ -161,7 +161,7 @@ def fixed_cases(tier):
     out.append({"kind": "stencil", "accuracy": 6, "dtype": "complex64", "prefactor": 1.0, "shape": [31, 24], "batch": [3],
                 "seed": 5, "operator": False, "sampling": 0.1})
     out.append({"kind": "vacuum", "accuracy": 6, "order": 2, "scope": "propagator", "energy": 100e3, "gpts": [24, 30],
-                "sampling": [0.2, 0.2], "nslices": 3, "x": 0.8, "batch": 2, "fraction": 0.85, "seed": 11, "lazy_chunks": 1})
+                "sampling": [0.2, 0.2], "nslices": 3, "x": 0.8, "batch": 2, "fraction": 0.85, "seed": 11, "lazy_chunks": 2})
     out.append({"kind": "potential", "accuracy": 6, "order": 1, "scope": "full", "energy": 200e3,
                 "cell": {"cell": [4.0, 5.0, 2.0], "symbols": ["C", "Si"], "positions": [[1.0, 1.0, 0.5], [2.5, 3.0, 1.5]]},
                 "gpts": [28, 34], "slice_thickness": 0.5, "builder": "probe-scan", "detector": "none", "exit_planes": False,
@@ -237,8 +237,8 @@ def _check_stencil(ctx, case):
     freqs, exhaustive = _frequencies(case, H, W, rng)
     tol = 5e-6 if dtype == np.complex64 else 1e-13
     ex, ey = eigen_1d(acc, H), eigen_1d(acc, W)
-    lam_scale = abs(pref) * (np.abs(ex).max() + np.abs(ey).max())
-    lam_scale = max(lam_scale, abs(pref) * 1e-3)
+    # rounding of the kernel is relative to sum|c_k| |a|, not to the eigenvalue (which vanishes on size-1 axes)
+    lam_scale = abs(pref) * 2.0 * float(np.abs(weights64(acc)).sum())
     st = stencil(acc, pref, dtype)
 
     waves = np.stack([plane_wave(H, W, m, n, dtype) for m, n in freqs])
@@ -248,10 +248,10 @@ def _check_stencil(ctx, case):
     ctx.expect(out.dtype == dtype and out.shape == waves.shape, "stencil-eigenvalue", what="dtype/shape",
                got=str(out.dtype), shape=list(out.shape))
     clause = "stencil-eigenvalue-exhaustive" if exhaustive else "stencil-eigenvalue"
-    ctx.close(out, lam[:, None, None] * waves.astype(np.complex128), clause, rtol=tol, scale=lam_scale,
-              accuracy=acc, shape=[H, W], dtype=str(dtype))
+    ok = ctx.close(out, lam[:, None, None] * waves.astype(np.complex128), clause, rtol=tol, scale=lam_scale,
+                   accuracy=acc, shape=[H, W], dtype=str(dtype))
     if exhaustive:
-        ctx.clauses["stencil-eigenvalue"] += 1
+        ctx.expect(ok, "stencil-eigenvalue", accuracy=acc, shape=[H, W], dtype=str(dtype), exhaustive=True)
     ctx.monitor("plane-waves", len(freqs))
     ctx.nontrivial(any(m or n for m, n in freqs))
 
@@ -260,7 +260,7 @@ def _check_stencil(ctx, case):
     a = (rng.normal(size=b + (H, W)) + 1j * rng.normal(size=b + (H, W))).astype(dtype)
     got = st(a.copy())
     ctx.expect(got.shape == a.shape, "stencil-linear-reference", what="shape", got=list(got.shape))
-    ctx.close(got, roll_reference(a, acc, pref), "stencil-linear-reference", rtol=tol * 4, scale=lam_scale * 4,
+    ctx.close(got, roll_reference(a, acc, pref), "stencil-linear-reference", rtol=tol, scale=lam_scale * float(np.abs(a).max()),
               accuracy=acc, shape=[H, W], batch=list(b))
 
     if case["operator"] and H >= 2 and W >= 2:
@@ -273,8 +273,15 @@ def _check_stencil(ctx, case):
         res = op.apply(w)
         lam1 = (ex[m] + ey[n]) / d ** 2
         ctx.close(G.to_numpy(res), lam1 * plane_wave(H, W, m, n, np.complex128), "laplace-operator-eigenvalue",
-                  rtol=5e-6, scale=(np.abs(ex).max() + np.abs(ey).max()) / d ** 2, accuracy=acc, freq=[m, n])
+                  rtol=5e-6, scale=lam_scale / abs(pref) / d ** 2, accuracy=acc, freq=[m, n])
         ctx.monitor("laplace-operator-applications")
+        # the same operator object re-used for waves with another sampling (its stencil cache is keyed by sampling)
+        d2 = 1.7 * d
+        w2 = abtem.Waves(plane_wave(H, W, m, n, np.complex64), energy=100e3, sampling=(d2, d2))
+        res2 = op.apply(w2)
+        ctx.close(G.to_numpy(res2), (ex[m] + ey[n]) / d2 ** 2 * plane_wave(H, W, m, n, np.complex128),
+                  "laplace-operator-eigenvalue", rtol=5e-6, scale=lam_scale / abs(pref) / d2 ** 2,
+                  accuracy=acc, freq=[m, n], reused=True)
 
 
 def _band_limited(case, rng):
